@@ -11,6 +11,158 @@ import random
 import gen_merge as G
 from awesomeyaml.utils import Bunch
 
+# ------------------------------------------------------------------------------------------------
+# family `bunch`: operation sequences on a real Bunch / on a mapping of a real evaluated Config, step by step
+# against AY.Model.Bunch (driver op bunch).  A case: {'kind': 'bunch', 'docs': [plain documents] | [], 'init': [[name, n]..]
+# (a bare Bunch), 'target': path to the mapping inside the evaluated config, 'ops': [[kind, name] | [kind, name, n]..]}.
+# Values are object NUMBERS: every Python object met is numbered by identity, so "is" is equality of numbers.
+# ------------------------------------------------------------------------------------------------
+_B_NAMES = ['a', 'b', 'lr', 'k', 'x1', '_x', '_y', '_w', '__m', 'keys', 'items', 'get', 'update', 'ayns', 'pop', 'ü', '', 'a b', '_',
+            '_source', '_user_data', 'build', '_pprint_is_simple_list', 'copy', 'A', 'a.b']
+_B_KINDS = ['getitem', 'setitem', 'delitem', 'getattr', 'setattr', 'delattr', 'contains']
+
+class _Objs:
+    """identity numbering of Python objects (kept alive, so that ids are not reused)"""
+    def __init__(self):
+        self.objs = []
+    def num(self, o):
+        for i, x in enumerate(self.objs):
+            if x is o:
+                return i
+        self.objs.append(o)
+        return len(self.objs) - 1
+    def fresh(self, n):
+        """the object a `set` operation with value number n writes: a new object, registered under the next number"""
+        o = ['value', n]
+        assert self.num(o) == n, (self.num(o), n)
+        return o
+
+def _key_token(k):
+    return k if isinstance(k, str) else '\x00' + type(k).__name__ + ':' + repr(k)
+
+def bunch_target(case):
+    """(the real object the operations run on, the config it belongs to or None)"""
+    if not case['docs']:
+        return Bunch({k: ['init', v] for k, v in case['init']}), None
+    cfg = Config(build_root(case['docs']))
+    t = cfg
+    for k in case['target']:
+        t = t[sc_py(k)]
+    return t, cfg
+
+def bunch_state(b, objs):
+    return {'items': [[_key_token(k), objs.num(v)] for k, v in dict.items(b)],
+            'attrs': [[k, objs.num(v)] for k, v in b.__dict__.items()]}
+
+def bunch_run(case):
+    """the operations on the real object: initial state, per step the outcome, the state and what the oracle needs"""
+    b, cfg = bunch_target(case)
+    objs = _Objs()
+    obs = {'type': type(b).__name__, 'is_bunch': isinstance(b, Bunch), 'init': bunch_state(b, objs), 'steps': [], 'checks': []}
+    names = sorted(set(o[1] for o in case['ops']) | set(k for k in dict.keys(b) if isinstance(k, str)))
+    obs['cls'] = [n for n in names if hasattr(type(b), n)]
+    src = cfg.__dict__.get('_source') if cfg is not None else None      # an empty config keeps no source
+    src_before = dump_node(src) if src is not None else None
+    base = len(objs.objs)
+    nxt = [base]
+    for op in case['ops']:
+        kind, name = op[0], op[1]
+        val = None
+        if len(op) > 2:
+            val = objs.fresh(nxt[0]); nxt[0] += 1
+        try:
+            if kind == 'getitem': r = {'val': objs.num(b[name])}
+            elif kind == 'setitem': b[name] = val; r = 'done'
+            elif kind == 'delitem': del b[name]; r = 'done'
+            elif kind == 'getattr':
+                v = getattr(b, name)
+                r = 'cls' if name in obs['cls'] and name not in b.__dict__ else {'val': objs.num(v)}
+            elif kind == 'setattr': setattr(b, name, val); r = 'done'
+            elif kind == 'delattr': delattr(b, name); r = 'done'
+            elif kind == 'contains': r = {'bool': name in b}
+            elif kind == 'dictSet': b.__dict__[name] = val; r = 'done'
+            else: raise RuntimeError(kind)
+        except (KeyError, AttributeError, ValueError) as e:
+            r = type(e).__name__
+        except Exception as e:  # noqa
+            r = 'other:' + type(e).__name__
+        obs['steps'].append({'res': r, 'state': bunch_state(b, objs)})
+        # the property on the implementation alone, after every step
+        backdoor = any(o[0] == 'dictSet' for o in case['ops'])
+        for k, v in list(dict.items(b)):
+            if isinstance(k, str) and k not in obs['cls'] and k not in b.__dict__ and not k.startswith('__'):
+                try:
+                    if getattr(b, k) is not v:
+                        obs['checks'].append(f'after {op}: b.{k} is not b[{k!r}]')
+                except Exception as e:  # noqa
+                    obs['checks'].append(f'after {op}: b.{k} raised {type(e).__name__} although the key exists')
+        if name not in b and name not in b.__dict__ and name not in obs['cls'] and not name.startswith('__'):
+            try:
+                getattr(b, name)
+                obs['checks'].append(f'after {op}: b.{name} does not raise although {name!r} is not a key')
+            except AttributeError:
+                pass
+            except Exception as e:  # noqa
+                obs['checks'].append(f'after {op}: b.{name} raised {type(e).__name__}, not AttributeError')
+        if kind in ('setattr', 'setitem') and r == 'done' and not name.startswith('_'):
+            if name not in b or b[name] is not val:
+                obs['checks'].append(f'after {op}: b[{name!r}] is not the object that was set')
+        if kind in ('delattr', 'delitem') and r == 'done' and not name.startswith('_') and name in b and not backdoor:
+            obs['checks'].append(f'after {op}: {name!r} is still a key')
+        if kind == 'setattr' and r == 'ValueError' and not backdoor:
+            obs['checks'].append(f'{op}: Name conflict without anybody writing to __dict__')
+    if src is not None and dump_node(src) != src_before:
+        obs['checks'].append('operating on the evaluated config changed the source tree')
+    return obs
+
+def _map_paths(raw, pre=()):
+    """(path in protocol keys / list positions, raw mapping) of every mapping of a document"""
+    out = [(list(pre), raw)] if 'm' in raw else []
+    for k, c in (raw['m'] if 'm' in raw else list(enumerate(raw.get('q', [])))):
+        out += _map_paths(c, pre + (k,))
+    return out
+
+def gen_bunch_case(rng):
+    docs, init, target = [], [], []
+    if rng.random() < 0.55:
+        raw = G.gen_doc(rng, G.PLAIN, 3, 0.0)
+        docs = [{'raw': raw}]
+        target, m = rng.choice(_map_paths(raw))
+        keys = [sc_py(k) for k, _ in m['m']]
+    else:
+        keys = rng.sample(['a', 'b', 'lr', '_w', 'keys', 'x1', 'ü'], rng.choice([0, 1, 2, 3]))
+        init = [[k, i] for i, k in enumerate(keys)]
+    pool = _B_NAMES + [k for k in keys if isinstance(k, str) and not (k.startswith('__') and k.endswith('__'))] * 3
+    ops, backdoor = [], rng.random() < 0.12
+    for _ in range(rng.choice([1, 3, 6, 10, 16])):
+        kind = rng.choice(_B_KINDS + (['dictSet'] if backdoor else []))
+        name = rng.choice(pool)
+        if kind == 'dictSet':
+            name = rng.choice(['q', 'a', 'lr', '_x', 'k'])
+        ops.append([kind, name] + ([0] if kind in ('setitem', 'setattr', 'dictSet') else []))
+    return {'docs': docs, 'style': ['flow', 0, 0], 'kind': 'bunch', 'init': init, 'target': target, 'ops': ops}
+
+def bunch_requests(case, io):
+    # value numbers of the set operations are assigned in order, after the objects of the initial state
+    n = max([v for _, v in io['init']['items'] + io['init']['attrs']] + [-1]) + 1
+    ops = []
+    for op in case['ops']:
+        if len(op) > 2:
+            ops.append([op[0], op[1], n]); n += 1
+        else:
+            ops.append(list(op))
+    return [{'op': 'bunch', 'cls': io['cls'], 'items': io['init']['items'], 'attrs': io['init']['attrs'], 'ops': ops}]
+
+def bunch_compare(case, io, a):
+    if 'bad' in a:
+        return 'driver op bunch failed: ' + a['bad']
+    for i, (op, st, res, mst) in enumerate(zip(case['ops'], io['steps'], a['trace'], a['states'])):
+        if st['res'] != res:
+            return f'step {i} {op}: implementation {json.dumps(st["res"])}, model {json.dumps(res)}'
+        if st['state'] != mst:
+            return f'step {i} {op}: state after the operation differs: implementation {json.dumps(st["state"])}, model {json.dumps(mst)}'
+    return None
+
 def py_walk_leaks(v, path='cfg', seen=None):
     """paths at which an awesomeyaml object (node / PartialChild) or a non-exact scalar type occurs, keys included"""
     seen = seen if seen is not None else set()
@@ -137,11 +289,56 @@ class C11(EvalFamProp):
                     if docs is not None:
                         c['docs'] = docs
                         break
-        return cases
+        r3 = random.Random(rng.random())      # drawn after the others: those stay as they were
+        return cases + [gen_bunch_case(r3) for _ in range(max(1, n // 2))]
+
+    def model_requests(self, case):
+        if case.get('kind') == 'bunch':
+            return bunch_requests(case, bunch_run(case))
+        return EvalFamProp.model_requests(self, case)
+
+    def model_obs(self, case, answers):
+        if case.get('kind') == 'bunch':
+            return {'bunch': answers[0]}
+        return EvalFamProp.model_obs(self, case, answers)
+
+    def compare(self, case, io, mo):
+        if case.get('kind') == 'bunch':
+            return bunch_compare(case, io, mo['bunch'])
+        return EvalFamProp.compare(self, case, io, mo)
+
+    def render(self, case):
+        if case.get('kind') == 'bunch':
+            head = EvalFamProp.render(self, case) + [f'target: cfg{"".join("[%r]" % sc_py(k) for k in case["target"])}'] if case['docs'] \
+                else [f'Bunch({dict((k, ("init", v)) for k, v in case["init"])!r})']
+            return head + ['ops: ' + json.dumps(case['ops'], ensure_ascii=False)]
+        return EvalFamProp.render(self, case)
+
+    def shrink(self, case):
+        if case.get('kind') == 'bunch':
+            ops = case['ops']
+            for i in range(len(ops)):
+                yield dict(case, ops=ops[:i] + ops[i + 1:])
+            return
+        yield from EvalFamProp.shrink(self, case)
 
     def corpus(self):
         D = lambda *raws: {'docs': [{'raw': r} for r in raws], 'style': ['flow', 0, 0]}
+        B = lambda init, ops, docs=(), target=(): {'docs': [{'raw': r} for r in docs], 'style': ['flow', 0, 0], 'kind': 'bunch',
+                                                   'init': init, 'target': list(target), 'ops': ops}
+        cfgdoc = M({'_w': S(3), 'a': M({'_u': S(1), 'v': S(True), 'lr': Q([S(0.1)])}), 'k': S('x')})
         return [
+            # the witnesses of Props/C11_Bunch.lean: underscore attribute, class attribute, Name conflict, KeyError of `del b.zz`
+            B([['a', 0], ['_w', 1]], [['setattr', '_t', 0], ['getattr', '_t'], ['getitem', '_t'], ['getattr', '_w'], ['delattr', '_t'], ['getattr', '_t']]),
+            B([['a', 0]], [['setattr', 'keys', 0], ['getitem', 'keys'], ['getattr', 'keys'], ['delattr', 'keys'], ['delattr', 'keys']]),
+            B([['a', 0]], [['dictSet', 'q', 0], ['setattr', 'q', 0], ['getattr', 'q'], ['getitem', 'q'], ['delattr', 'q'], ['setattr', 'q', 0], ['getattr', 'q']]),
+            B([['a', 0]], [['delattr', 'zz'], ['delitem', 'zz'], ['getattr', 'zz'], ['getitem', 'zz'], ['contains', 'zz'], ['contains', 'a']]),
+            B([], [['setattr', 'lr', 0], ['getitem', 'lr'], ['setitem', 'k', 0], ['getattr', 'k'], ['delattr', 'lr'], ['getattr', 'lr']], [cfgdoc]),
+            B([], [['getattr', '_u'], ['setattr', '_u', 0], ['getattr', '_u'], ['getitem', '_u'], ['delattr', '_u'], ['getattr', '_u'], ['delattr', '_u'],
+                   ['getattr', '_u'], ['getattr', 'lr'], ['setattr', 'lr', 0], ['getitem', 'lr']], [cfgdoc], ['a']),
+            B([], [['getattr', 'ayns'], ['setattr', 'ayns', 0], ['getitem', 'ayns'], ['getattr', 'ayns'], ['delattr', 'ayns'], ['delattr', 'ayns'],
+                   ['getattr', '_source'], ['delattr', '_user_data'], ['getattr', '_user_data']], [cfgdoc]),
+        ] + [
             D(M({'_w': S(3), 'a': M({'_u': S(1), 'v': S(True), 'n': S(None), 'f': S(1.5), 'e': Sempty()}), 'l': Q([M({}), Q([])])})),   # D02
             D(M({'r': Stext('bar.z', 'xref'), 'c': Stext('T(bar)', 'eval'), 'bar': M({'z': S(1), 'y': S(2)})})),                        # D20
             D(M({'c': Stext('T(d, S1, k)', 'eval'), 'k': S(12), 'd': M({'a': M({}), 'c': Stext('c', 'xref')})})),                        # D21 (known finding)
@@ -154,6 +351,8 @@ class C11(EvalFamProp):
         ]
 
     def impl(self, case):
+        if case.get('kind') == 'bunch':
+            return bunch_run(case)
         def extra(obs, root, cfg, w):
             checks = []
             checks += py_walk_leaks(cfg)
@@ -221,6 +420,10 @@ class C11(EvalFamProp):
         return run_case(case['docs'], self.WORLD, tuple(case.get('style', ['flow', 0, 0])), extra=extra)
 
     def oracle(self, case, io, ans):
+        if case.get('kind') == 'bunch':
+            if not io['is_bunch']:
+                return f'the mapping at {case["target"]} of the evaluated config is a {io["type"]}, not a Bunch'
+            return io['checks'][0] if io['checks'] else None
         if io['cfg'].get('err') == 'HANG':
             return 'evaluation did not terminate'
         cyc = ans and ans[0].get('err') in ('recursion', 'unsupported')
@@ -231,6 +434,15 @@ class C11(EvalFamProp):
         return None
 
     def features(self, case, io):
+        if case.get('kind') == 'bunch':
+            f = ['kind:bunch', 'bunch:on-' + (io.get('type', '?') if isinstance(io, dict) else '?') + ('' if not case['docs'] else '-of-config'),
+                 'bunch:depth=%d' % len(case['target'])]
+            for op, st in zip(case['ops'], io.get('steps', []) if isinstance(io, dict) else []):
+                r = st['res']
+                f.append('bunch:' + op[0] + '->' + (r if isinstance(r, str) else next(iter(r))))
+                if op[1].startswith('_'): f.append('bunch:underscore-name')
+                if op[1] in io.get('cls', []): f.append('bunch:class-attribute-name')
+            return sorted(set(f))
         return EvalFamProp.features(self, case, io) + (['shared-path-string'] if ambiguous_strings(case['docs']) else [])
 
     def finding_key(self, case, desc):
@@ -239,6 +451,8 @@ class C11(EvalFamProp):
         return None
 
     def nontrivial(self, case, io):
+        if case.get('kind') == 'bunch':
+            return len(case['ops']) > 1
         return 'ok' in io.get('cfg', {})
 
 PROP = C11()
